@@ -118,7 +118,7 @@ fn check_server(rep: &mut Report, cx: &SeqCtx, srv: &Srv, out: &ConnOut) -> Vec<
     // before sending more would hang forever. Inline paths only (off-reader completion is not ordered); a
     // machine stall makes it inconclusive.
     {
-        let expected = reqs.iter().filter(|r| r.notify == 0).count();
+        let expected = reqs.iter().filter(|r| r.notify != 1).count();
         let inline_srv = !name.contains("offreader");
         if out.waited_out && inline_srv && out.frames.len() >= expected && expected > 0 {
             if cx.stalled {
@@ -175,7 +175,7 @@ fn check_server(rep: &mut Report, cx: &SeqCtx, srv: &Srv, out: &ConnOut) -> Vec<
                     } else if inline || (!out.waited_out || !cx.stalled) {
                         // a request whose error text quotes long non-ASCII caller text, or one pipelined behind such a
                         // request that itself went unanswered, gets its own signature
-                        let lost_behind = (0..i).rev().find(|&j| reqs[j].reflect.is_some() && reqs[j].notify == 0 && got[j].is_empty());
+                        let lost_behind = (0..i).rev().find(|&j| reqs[j].reflect.is_some() && reqs[j].notify != 1 && got[j].is_empty());
                         let sig = match (&r.reflect, lost_behind) {
                             (Some(rf), _) => format!("C03:{name}:non-ascii-error-text:no-response:{}", rf.kind),
                             (None, Some(_)) => format!("C03:{name}:non-ascii-error-text:following-request-unanswered"),
@@ -188,7 +188,7 @@ fn check_server(rep: &mut Report, cx: &SeqCtx, srv: &Srv, out: &ConnOut) -> Vec<
                         };
                         cx.viol(rep, 
                             sig,
-                            format!("{name}, sequence {}, request #{i} (notify=0, {label}, {}): no response up to end of stream ({} frames received for {} expected; waited_out={}){extra}", cx.seq, if inline { "inline" } else { "off-reader" }, out.frames.len(), reqs.iter().filter(|r| r.notify == 0).count(), out.waited_out),
+                            format!("{name}, sequence {}, request #{i} (notify=0, {label}, {}): no response up to end of stream ({} frames received for {} expected; waited_out={}){extra}", cx.seq, if inline { "inline" } else { "off-reader" }, out.frames.len(), reqs.iter().filter(|r| r.notify != 1).count(), out.waited_out),
                             &name, Some(i),
                         );
                     } else {
@@ -484,7 +484,7 @@ fn differential(rep: &mut Report, cx: &SeqCtx, servers: &[Srv], singles: &[Vec<O
     }
     // informational only (not in the statement): middleware-wrapped vs plain router
     for (i, r) in cx.reqs.iter().enumerate() {
-        if r.notify == 0 {
+        if r.notify != 1 {
             if let (Some(a), Some(b)) = (&singles[0][i], &singles[4][i]) {
                 if a != b {
                     rep.count("info_plain_vs_middleware_router_field_differences", 1);
@@ -496,7 +496,7 @@ fn differential(rep: &mut Report, cx: &SeqCtx, servers: &[Srv], singles: &[Vec<O
 
 async fn run_sequence(servers: Arc<Vec<Srv>>, reqs: Arc<Vec<Req>>, mut rng: Rng) -> Vec<ConnOut> {
     let wire: Arc<Vec<Vec<u8>>> = Arc::new(reqs.iter().map(|r| r.wire()).collect());
-    let n_expected = reqs.iter().filter(|r| r.notify == 0).count();
+    let n_expected = reqs.iter().filter(|r| r.notify != 1).count();
     let mut hs = vec![];
     for s in servers.iter() {
         let (wire, addr, sid) = (wire.clone(), s.addr, s.sid);
